@@ -23,12 +23,15 @@ package dns
 //@   assume at "return ua.Net == " unixaddr: ua != nil
 //@ func (*Conn).tsigProvider [C11 C12]
 //@   requires co != nil
+// (a connection always has a provider: without a key map every key is unknown, which is an error, not a pass)
+//@   ensures configured: (co.TsigProvider != nil ==> ret0 == co.TsigProvider) && ret0 != nil
 // a server that has TSIG configured - a provider, or a key map (even an empty one: then every key is unknown) - verifies
 //@ func (*Server).tsigProvider [C12 C14 C11]
 //@   requires srv != nil
 //@   ensures configured: (srv.TsigProvider != nil ==> ret0 == srv.TsigProvider) && (srv.TsigProvider == nil && srv.TsigSecret != nil ==> ret0 != nil) && (srv.TsigProvider == nil && srv.TsigSecret == nil ==> ret0 == nil)
 //@ func (*Transfer).tsigProvider [C11 C15]
 //@   requires t != nil
+//@   ensures configured: (t.TsigProvider != nil ==> ret0 == t.TsigProvider) && (t.TsigProvider == nil && t.TsigSecret != nil ==> ret0 != nil) && (t.TsigProvider == nil && t.TsigSecret == nil ==> ret0 == nil)
 //@ func (*Server).getReadTimeout [C12 C14]
 //@   requires srv != nil
 //@   pure
